@@ -514,6 +514,20 @@ fn restart(ctx: &mut Ctx, s: &mut Session) -> Step {
             }
         }
     }
+    // path 3b: the builder again, square by square with detours: refused placements on
+    // occupied squares, pieces removed and put back, wrong pieces placed and removed
+    if !s.model.cr.iter().any(|&x| x) && ctx.tape.choose(2) == 1 {
+        let r = builder_with_detours(ctx, &s.model);
+        match r {
+            Ok(r) => {
+                ctx.stats.bump("fault.restart.builder-with-detours");
+                compare_replica(ctx, &s.board, &r, "builder-detours", &features, &fen)?;
+            }
+            Err(e) => {
+                return fail_any(ctx, &[(Prop::C06, "build.rejected-valid"), (Prop::C05, "recover.paths-differ")], features, format!("builder (with detours) rejected {fen:?}: {e}"));
+            }
+        }
+    }
     // path 4: constructor + replay of the game so far
     if let Some(hist) = &s.from_standard {
         if hist.len() <= 40 {
@@ -541,6 +555,82 @@ fn restart(ctx: &mut Ctx, s: &mut Session) -> Step {
         s.shadow = if j > 0 { Some((live, j, "shadow")) } else { None };
     }
     Ok(())
+}
+
+/// rebuild `p` through `BoardBuilder` with a drawn sequence of detours that must not
+/// change the result (positions without castling rights only)
+fn builder_with_detours(ctx: &mut Ctx, p: &Pos1) -> Result<Board, String> {
+    let mut b = Board::builder();
+    let start = ctx.tape.choose(64) as u8;
+    let detours = ctx.tape.range(1, 6);
+    let mut placed: Vec<u8> = Vec::new();
+    let mut budget = detours;
+    for i in 0..64u8 {
+        let sq = (start.wrapping_add(i)) & 63;
+        let x = p.sq[sq as usize];
+        if x != m1::EMPTY {
+            let ok = op(Op::Build, || b.place(sut::pos(sq), sut::color(m1::color_of(x)), sut::piece(m1::kind_of(x))).is_ok());
+            if !ok {
+                return Err(format!("place refused on empty square {sq}"));
+            }
+            placed.push(sq);
+        }
+        if budget > 0 && !placed.is_empty() && ctx.tape.choose(8) == 0 {
+            budget -= 1;
+            let victim = *ctx.tape.pick(&placed);
+            let vx = p.sq[victim as usize];
+            match ctx.tape.choose(4) {
+                0 => {
+                    // a placement on an occupied square must be refused and change nothing
+                    let k = *ctx.tape.pick(&[m1::P, m1::N, m1::B, m1::R, m1::Q, m1::K]);
+                    let c = ctx.tape.choose(2) as u8;
+                    let refused = op(Op::Build, || b.place(sut::pos(victim), sut::color(c), sut::piece(k)).is_err());
+                    if !refused {
+                        return Err(format!("place on occupied square {victim} was not refused"));
+                    }
+                    ctx.stats.bump("fault.builder.refused-placement");
+                }
+                1 => {
+                    // remove a piece and put it back
+                    op(Op::Build, || {
+                        b.remove(sut::pos(victim));
+                    });
+                    let ok = op(Op::Build, || b.place(sut::pos(victim), sut::color(m1::color_of(vx)), sut::piece(m1::kind_of(vx))).is_ok());
+                    if !ok {
+                        return Err(format!("re-placing on {victim} refused"));
+                    }
+                }
+                2 => {
+                    // a wrong piece on a square that stays empty in the end, removed again
+                    let free: Vec<u8> = (0..64u8).filter(|&q| p.sq[q as usize] == m1::EMPTY && !placed.contains(&q)).collect();
+                    if !free.is_empty() {
+                        let q = *ctx.tape.pick(&free);
+                        let k = *ctx.tape.pick(&[m1::P, m1::N, m1::B, m1::R, m1::Q]);
+                        let c = ctx.tape.choose(2) as u8;
+                        let _ = op(Op::Build, || b.place(sut::pos(q), sut::color(c), sut::piece(k)).is_ok());
+                        op(Op::Build, || {
+                            b.remove(sut::pos(q));
+                        });
+                    }
+                }
+                _ => {
+                    // removing an empty square is a no-op
+                    let free: Vec<u8> = (0..64u8).filter(|&q| p.sq[q as usize] == m1::EMPTY && !placed.contains(&q)).collect();
+                    if !free.is_empty() {
+                        let q = *ctx.tape.pick(&free);
+                        op(Op::Build, || {
+                            b.remove(sut::pos(q));
+                        });
+                    }
+                }
+            }
+        }
+    }
+    b.turn(sut::color(p.stm));
+    b.enpassant(p.ep.map(sut::file));
+    b.half_move_clock(p.hmc as u16);
+    b.full_move_clock(p.fmn as u16);
+    op(Op::Build, || b.build()).map_err(|e| format!("{e:?}"))
 }
 
 /// C05 monitors that need no restart fault: text against the reference writer etc.
@@ -765,6 +855,20 @@ fn accept(ctx: &mut Ctx, s: &mut Session, b: Board, how: &str, ops: &str, shown:
         Err(e) => return ctx.fail(Prop::C06, &format!("{how}.accepted-invalid.partition"), String::new(), format!("{shown:?}: {e}")),
     };
     if let Err(clause) = got.validity() {
+        if ctx.claim == Prop::C07 {
+            // C07 quantifies over every *accepted* position: play on from it without
+            // oracles, so that a trap that needs the invalid position can manifest
+            ctx.stats.bump("c07.continued-from-accepted-invalid");
+            s.sut_driven = true;
+            s.model = got;
+            s.board = b;
+            s.played = false;
+            s.shadow = None;
+            s.from_standard = None;
+            s.prev_legal.clear();
+            s.last_move = [None, None];
+            return Ok(());
+        }
         return ctx.fail(Prop::C06, &format!("{how}.accepted-invalid.{clause}"), String::new(), format!("accepted {shown:?} (damage: {ops}) which violates '{clause}'; read back as {}", got.fen()));
     }
     // the session continues from the accepted position in a drawn half of the cases
@@ -975,6 +1079,10 @@ pub fn run(ctx: &mut Ctx) -> Step {
             }
             let _ = op(Op::Print, || format!("{} {:?}", s.board, s.board));
             let _ = op(Op::Status, || s.board.state());
+            if ctx.tape.choose(4) == 0 {
+                let k = ctx.tape.log_uniform(2000) as u64;
+                let _ = clock::search(&s.board, &three_fold, k, false);
+            }
             continue;
         }
         let l1 = check_legals(ctx, &s)?;
